@@ -13,7 +13,7 @@ RULE = (
     "(graph signature, op-kind sequence) pairs whose history contains at least one derived read after an assignment"
 )
 REQUIRED = {"reads_derived": 2000, "reverts_partial": 50, "reverts_full": 100, "clones": 100, "quiescent_checks": 1000,
-            "model_histories": 10, "reads_unset_raised": 20, "many_path_graphs": 50, "weighted_assignments": 200, "histories_on_unusual_scales": 50}
+            "model_histories": 10, "reads_unset_raised": 20, "many_path_graphs": 50, "weighted_assignments": 200, "histories_on_unusual_scales": 50, "refused_assignments": 300}
 ASSUMPTIONS = [
     "the documented precondition of a partial revert is respected by the generator (only individual-wise nodes are read between an "
     "assignment and a per-individual revert); individual-wise = no ancestor aggregates over individuals (toy: by construction; "
@@ -22,7 +22,7 @@ ASSUMPTIONS = [
 ]
 
 WEIGHTS = {"read": 8, "set": 5, "ctxset": 1.5, "unset": 0.4, "put": 3, "revert": 2, "prevert": 3, "clone": 1, "fork": 1.5,
-           "clear": 0.15, "precompute": 0.6, "device": 0.3}
+           "clear": 0.15, "precompute": 0.6, "device": 0.3, "badset": 0.8}
 
 
 def shards(tier, seed):
